@@ -275,6 +275,14 @@ def c11_cast(a: ValueType, b: ValueType) -> tuple[ValueType, ValueType]:
     return (signed, unsigned) if a_is_signed else (unsigned, signed)
 
 
+def wrap_to_type(val: int, val_type: ValueType) -> int:
+    """Returns the value an integer has after its conversion to the given type."""
+    val &= (1 << val_type.bit_width) - 1
+    if val_type.signed and val >> (val_type.bit_width - 1):
+        val -= 1 << val_type.bit_width
+    return val
+
+
 def promoted_type(pure_type: ValueType) -> ValueType:
     """Returns for a given type the promoted type.
     Currently, this means: For anything smaller of 32bit wide types this is signed int (32bit).
